@@ -56,7 +56,7 @@ HScrew == { <<1,1,0,0>>, <<2,1,0,-1>>, <<0,1,0,0>>, <<-1,1,1,0>>, <<1,1,1,1>>, <
 HScrew23 == { <<1,1,0,0>>, <<2,1,0,-1>>, <<0,0,1,0>>, <<-1,1,1,0>> }
 CSug  == { <<1,0,1>>, <<0,1,1>>, <<-1,0,1>>, <<3,4,5>>, <<-4,-3,5>>, <<5,-12,13>>, <<63,16,65>>, <<63,-16,65>> }
 XeSet(k) ==
-  CASE k \in 1..4 -> { [k |-> "so3", h |-> h] : h \in HSugar }
+  CASE k \in 1..4 -> { [k |-> "so3", h |-> h] : h \in (IF Thorough THEN HSugar \cup HSmall \cup HNearPi ELSE HSugar) }
     [] k \in 5..6 -> { [k |-> "se3", h |-> h, alpha |-> al, y |-> y] : h \in HScrew, al \in (IF Thorough THEN {1, -2, 0} ELSE {-2}), y \in {<<0,-2,1>>, <<1,1,3>>} }
                      \cup { [k |-> "se3t", rho |-> r] : r \in {<<0,0,0>>, <<3,1,-1>>} }
     [] k \in 7..8 -> { [k |-> "se23", h |-> h, a1 |-> 1, y1 |-> y1, a2 |-> -2, y2 |-> y2] :
@@ -69,21 +69,27 @@ XeSet(k) ==
     [] k = 11     -> { [k |-> "rn", x |-> x, pd |-> d] : x \in R3Small, d \in {1, 2} }
     [] k = 12     -> { [k |-> "rn", x |-> x, pd |-> d] : x \in R2Small, d \in {1, 2} }
     [] k = 13     -> { [k |-> "sum", parts |-> << [k |-> "so2", cs |-> c], [k |-> "rn", x |-> x, pd |-> 2] >>] :
-                          c \in {<<3,4,5>>, <<0,-1,1>>, <<1,0,1>>}, x \in {<<1,-2>>, <<0,0>>} }
+                          c \in (IF Thorough THEN {<<3,4,5>>, <<0,-1,1>>, <<1,0,1>>} ELSE {<<3,4,5>>, <<1,0,1>>}), x \in {<<1,-2>>, <<0,0>>} }
     [] k = 14     -> { [k |-> "sum", parts |-> << [k |-> "so3", h |-> h], [k |-> "rn", x |-> x, pd |-> 1] >>] :
-                          h \in {<<1,1,0,0>>, <<-1,1,1,0>>, <<64,1,2,2>>, <<1,0,0,0>>}, x \in {<<3,1,1>>, <<0,0,0>>} }
+                          h \in {<<1,1,0,0>>, <<-1,1,1,0>>, <<64,1,2,2>>, <<1,0,0,0>>}, x \in (IF Thorough THEN {<<3,1,1>>, <<0,0,0>>} ELSE {<<0,0,0>>}) }
     [] k = 15     -> { [k |-> "sum", parts |-> << [k |-> "se2", cs |-> c, u |-> <<-2,1>>], [k |-> "so3", h |-> h],
                                                   [k |-> "rn", x |-> <<1,0,-2>>, pd |-> 1] >>] :
-                          c \in {<<3,4,5>>, <<0,1,1>>}, h \in {<<1,1,0,0>>, <<2,1,0,-1>>, <<0,0,1,0>>} }
+                          c \in (IF Thorough THEN {<<3,4,5>>, <<0,1,1>>} ELSE {<<3,4,5>>}), h \in {<<1,1,0,0>>, <<2,1,0,-1>>, <<0,0,1,0>>} }
     [] k = 16     -> { [k |-> "sum", parts |-> << [k |-> "se3", h |-> h, alpha |-> 1, y |-> <<0,-2,1>>], [k |-> "so3", h |-> h2] >>] :
-                          h \in {<<1,1,0,0>>, <<-1,1,1,0>>}, h2 \in {<<2,1,0,-1>>, <<1,0,0,2>>, <<1,0,0,0>>} }
+                          h \in {<<1,1,0,0>>, <<-1,1,1,0>>}, h2 \in (IF Thorough THEN {<<2,1,0,-1>>, <<1,0,0,2>>, <<1,0,0,0>>} ELSE {<<2,1,0,-1>>, <<1,0,0,0>>}) }
 
 (* seed elements X per family *)
 RepOfK(k) == CASE k = 1 -> "quat" [] k = 2 -> "mrp" [] k = 3 -> "dcm" [] k = 4 -> "euler"
+QuickProd(k) ==
+  CASE k = 13 -> { X \in Families[13] : X.fs[1].cs \in {<<3,4,5>>, <<-4,-3,5>>} /\ X.fs[2].x \in {<<1,-2>>, <<3,1>>} }
+    [] k = 14 -> { X \in Families[14] : X.fs[1].q \in {<<1,1,0,0>>, <<-1,1,1,0>>} /\ X.fs[2].x \in {<<1,0,-2>>, <<3,1,1>>} }
+    [] k = 15 -> Families[15]
+    [] k = 16 -> { X \in Families[16] : X.fs[2].q \in {<<1,1,0,0>>, <<1,0,0,2>>} }
 SFam(k) ==
   CASE k \in 1..4 -> SO3Set(RepOfK(k), IF Thorough THEN QSel \cup QL1 ELSE QSel)
     [] k \in 5..6 -> Families[k]
     [] k \in 7..8 -> IF Thorough THEN { X \in Families[k] : X.q \in QSel8 /\ X.p \in TSel4 /\ X.v \in TTri } ELSE TriFamilies[k]
+    [] k >= 13    -> IF Thorough THEN Families[k] ELSE QuickProd(k)       \* (10x10 block matrices cost ~0.1 s per state in TLC)
     [] OTHER      -> Families[k]
 
 NRot(rep) == CASE rep = "quat" -> 4 [] rep = "mrp" -> 3 [] rep = "dcm" -> 9 [] rep = "euler" -> 3
